@@ -293,10 +293,7 @@ def main():
         merge_partial(rep, cands, part)
     from checks import histlib as HL
     r = C.rng()
-    hjobs = [(p, c) for p, c in HL.HANDCRAFTED]
-    for parents in shapes_upto(3 if tier == 'quick' else 4):
-        if parents:
-            hjobs += [(h.parents, h.content) for h in HL.valid_histories(parents, r, 3 if tier == 'quick' else 8)]
+    hjobs = HL.history_list(tier, r, 3 if tier == 'quick' else 4, 3 if tier == 'quick' else 8)
     for part in parallel(hjobs, worker_values):
         merge_partial(rep, cands, part)
     rep.cov['bounds']['value_kernel'] = '%d transaction-carrying histories (checks/histlib.py), both addresses, unfiltered requests, amounts symbolic' % len(hjobs)
